@@ -41,14 +41,15 @@ def clean(s):
 
 
 # --------------------------------------------------------------------------- build
-def build_harness():
-    """(Re)builds the harness against /repo's current working tree, hooks on."""
+def build_harness(pkgs=None):
+    """(Re)builds the harness (all crates, or the given packages) against /repo's current working tree, hooks on."""
     env = dict(os.environ, CARGO_NET_OFFLINE="true")
     lock = os.path.join(HARNESS, "Cargo.lock")
     if not os.path.exists(lock):
         shutil.copy(os.path.join(REPO, "Cargo.lock"), lock)
     t0 = time.time()
-    p = subprocess.run(["cargo", "build", "--release", "--offline", "-q", "--workspace"], cwd=HARNESS, env=env,
+    sel = ["--workspace"] if not pkgs else sum((["-p", x] for x in pkgs), [])
+    p = subprocess.run(["cargo", "build", "--release", "--offline", "-q"] + sel, cwd=HARNESS, env=env,
                        stdout=subprocess.PIPE, stderr=subprocess.STDOUT, text=True)
     if p.returncode != 0:
         errs = [l for l in clean(p.stdout).splitlines() if l.startswith("error")][:10]
